@@ -346,3 +346,33 @@ Check SrcTie2Events.EV_enc_seek_shape.
 Theorem C03_tie_EV_enc_seek_shape : ltac:(let t := type of SrcTie2Events.EV_enc_seek_shape in exact t).
 Proof. exact SrcTie2Events.EV_enc_seek_shape. Qed.
 Print Assumptions C03_tie_EV_enc_seek_shape.
+
+(* ---------- Tie A level 1, work package encT: the authenticated loader and `read` translated from the source ARE the
+   model's (theories/SrcTie3Enc.v); D3 cannot return in the TRANSLATED read ---------- *)
+From MLA Require SrcTie3Enc SrcTie3EncC.
+From MLAGen Require Src3e.
+(* after a failed load (empty cache, position inside the chunk) the translated Read::read returns Ok(0) and changes
+   nothing, for every inner stream, buffer size and fuel: it cannot step over the chunk that failed *)
+Theorem C03_failed_load_is_sticky_src :
+  forall (S : Stream) (CHUNK TAG : N) (ks : N -> N -> N) (tagc : N -> bytes -> bytes) (site_index : N),
+    0 < CHUNK -> forall fuel (x : Src3e.EncryptionLayerInternal S) n,
+    Src3e.eli_cache S x = [] -> Src3e.eli_cache_pos S x < CHUNK ->
+    Src3e.elr_read S CHUNK TAG ks tagc (rd_fuel CHUNK TAG) 416 site_index 419 (Datatypes.S fuel) x n = (x, Ok []).
+Proof. exact SrcTie3Enc.failed_load_is_sticky_src. Qed.
+Print Assumptions C03_failed_load_is_sticky_src.
+Check SrcTie3Enc.eload_src.
+Theorem C03_tie_load_in_cache_whole_src : ltac:(let t := type of SrcTie3Enc.eload_src in exact t).
+Proof. exact SrcTie3Enc.eload_src. Qed.
+Print Assumptions C03_tie_load_in_cache_whole_src.
+Check SrcTie3Enc.enc_read_sim.
+Theorem C03_tie_enc_read_sim : ltac:(let t := type of SrcTie3Enc.enc_read_sim in exact t).
+Proof. exact SrcTie3Enc.enc_read_sim. Qed.
+Print Assumptions C03_tie_enc_read_sim.
+Check SrcTie3Enc.enc_seek_sim.
+Theorem C03_tie_enc_seek_sim : ltac:(let t := type of SrcTie3Enc.enc_seek_sim in exact t).
+Proof. exact SrcTie3Enc.enc_seek_sim. Qed.
+Print Assumptions C03_tie_enc_seek_sim.
+Check SrcTie3EncC.translated_enc_reader_detects.
+Theorem C03_tie_translated_enc_reader_detects : ltac:(let t := type of SrcTie3EncC.translated_enc_reader_detects in exact t).
+Proof. exact SrcTie3EncC.translated_enc_reader_detects. Qed.
+Print Assumptions C03_tie_translated_enc_reader_detects.
